@@ -105,10 +105,17 @@ def volatile_form(rng, inner, kind, array=False):
         return ['op', '*', site, ['n', rng.randrange(1, 9)]]
     # RANDBETWEEN with a huge span (injective up to 1e-12) or a small span
     # (range clause only)
-    if rng.chance(.6):
+    if rng.chance(.45):
         return ['f', 'RANDBETWEEN', ['n', 0], ['n', BIG]]
-    lo = rng.randrange(0, 5)
-    return ['f', 'RANDBETWEEN', ['n', lo], ['n', lo + rng.randrange(1, 30)]]
+    if rng.chance(.5):
+        lo = rng.randrange(0, 5)
+        return ['f', 'RANDBETWEEN', ['n', lo],
+                ['n', lo + rng.randrange(1, 30)]]
+    # negative and fractional bounds (an integer must lie in between, or the
+    # result must be an error)
+    lo = rng.randrange(-12, 4) + rng.pick([0, 0.5, 0.25, 0.75])
+    hi = lo + rng.pick([0.25, 0.5, 1, 1.5, 2, 3.75])
+    return ['f', 'RANDBETWEEN', ['n', lo], ['n', hi]]
 
 
 def generate(seed, tier):
@@ -220,8 +227,14 @@ def generate(seed, tier):
                         e['kind'] in ('deepcopy', 'dill') and
                         exes[e['src']]['kind'] in ('model', 'todict',
                                                    'deepcopy', 'dill'))]
+            fcells = [i for i, c in enumerate(world['cells']) if 'f' in c]
             exes.append({'kind': 'compile', 'src': er.pick(srcs),
-                         'inputs': sorted(ins)})
+                         'inputs': sorted(ins),
+                         # all formula cells, or a subset (a model may be
+                         # compiled several times for different outputs)
+                         'outputs': None if er.chance(.5) else sorted(
+                             er.sample(fcells, er.randrange(
+                                 1, len(fcells) + 1)))})
         elif k == 'formula':
             exes.append({'kind': 'formula', 'cell': er.pick(vol_cells or [
                 len(world['cells']) - 1])})
@@ -267,6 +280,14 @@ def generate(seed, tier):
                      for _ in range(7)],
         'slots': slots, 'slot_days': 40,
         'jitter': [cr.randrange(0, 86400) for _ in range(n_eval + 2)],
+        # time of day of each evaluation: often the last second of a day,
+        # with a sub-second fraction (the clock has microsecond resolution)
+        'tod': [cr.pick([None, None, [23, 59, 59, cr.randrange(500000, 10**6)],
+                         [23, 59, 59, cr.randrange(0, 500000)],
+                         [23, 59, 58, cr.randrange(0, 10**6)],
+                         [0, 0, 0, cr.randrange(0, 10**6)]])
+                for _ in range(n_eval + 2)],
+        'micro': cr.randrange(0, 10**6),
     }
     return {'prop': ID, 'seed': seed, 'tier': tier, 'world': world,
             'schedule': s, 'exes': exes, 'steps': steps, 'clock': clock,
@@ -297,8 +318,11 @@ def num(tag):
     return float(tag[2:]) if tag.startswith('n:') else None
 
 
-def close(a, b):
-    """Nested normalised lists equal up to TOL on numbers."""
+SECOND = 1.0 / 86400
+
+
+def close(a, b, tol=0.0):
+    """Nested normalised lists equal up to TOL (+ tol) on numbers."""
     if a == b:
         return True
     if a == MISSING or b == MISSING or len(a) != len(b):
@@ -310,7 +334,7 @@ def close(a, b):
             if x == y:
                 continue
             fx, fy = num(x), num(y)
-            if fx is None or fy is None or abs(fx - fy) > TOL * max(
+            if fx is None or fy is None or abs(fx - fy) > tol + TOL * max(
                     1.0, abs(fx) / 1e5):
                 return False
     return True
@@ -388,7 +412,13 @@ def execute(trace, env=None):
             slot = ck['slots'][n_eval % len(ck['slots'])]
             target = start + dt.timedelta(
                 days=ck['slot_days'] * (slot + 1),
-                seconds=ck['jitter'][n_eval % len(ck['jitter'])])
+                seconds=ck['jitter'][n_eval % len(ck['jitter'])],
+                microseconds=ck.get('micro', 0))
+            tod = (ck.get('tod') or [None])[n_eval % len(ck.get('tod') or
+                                                          [None])]
+            if tod:
+                target = target.replace(hour=tod[0], minute=tod[1],
+                                        second=tod[2], microsecond=tod[3])
             if target < clock.now:
                 stats['backward_jumps'] += 1
             stats['sim_time_covered_s'] += int(abs(
@@ -449,6 +479,8 @@ def make_exe(world, P, s, spec, exes, fp):
         ins = [P.rect_id(*cell_rect(world['cells'][i]))
                for i in spec['inputs']]
         outs = [i for i, c in enumerate(world['cells']) if 'f' in c]
+        if spec.get('outputs') is not None:
+            outs = [i for i in spec['outputs'] if i in outs] or outs
         okeys = [P.rect_id(*cell_rect(world['cells'][i])) for i in outs]
         okeys += [P.vname_id(n['b'], k)
                   for k, n in enumerate(world.get('vnames', []))]
@@ -567,14 +599,14 @@ def judge(world, exe, obs, reads, fp, fail, stats, j):
                 ok = True   # oracle cannot evaluate: nothing demanded
                 break
             results.append(exp)
-            if close(exp, got):
+            if close(exp, got, SECOND):
                 ok = True
                 if serial_now:
                     break
         if not serial_now and results:
             # no clock reading in this evaluation: only a g that is constant
             # in t may have a value at all
-            ok = all(close(r, got) for r in results)
+            ok = all(close(r, got, SECOND) for r in results)
         stats['clock_cells_checked'] += 1
         if not ok:
             fail('C13.fresh.clock', 'exe %d (%s), evaluation %d: cell %d = %s '
@@ -615,12 +647,12 @@ def judge(world, exe, obs, reads, fp, fail, stats, j):
                     break
                 res = norm_value(res)
                 results.append(res)
-                if close(res, got):
+                if close(res, got, SECOND):
                     ok = True
                     if serial_now:
                         break
             if not serial_now and results:
-                ok = all(close(r, got) for r in results)
+                ok = all(close(r, got, SECOND) for r in results)
             stats['clock_cells_checked'] += 1
             if not ok:
                 fail('C13.fresh.clock', 'exe %d (%s), evaluation %d: name '
@@ -656,9 +688,14 @@ def judge_rand(world, exe, i, c, got, prev, fail, stats, j):
                 j, exe.kind, flat[0]), cell=i, exe=j, kind=exe.kind)
     if f[0] == 'f' and f[1] == 'RANDBETWEEN':
         stats['range_checked'] += 1
+        import math
         lo, hi = f[2][1], f[3][1]
         v = num(flat[0])
-        if v is None or v != int(v) or not (lo <= v <= hi):
+        if math.ceil(lo) > math.floor(hi):
+            bad = not flat[0].startswith('e:')   # no integer in between
+        else:
+            bad = v is None or v != int(v) or not (lo <= v <= hi)
+        if bad:
             fail('C13.range', 'exe %d (%s): RANDBETWEEN(%s,%s) = %s' % (
                 j, exe.kind, lo, hi, flat[0]), cell=i, exe=j, kind=exe.kind,
                  fn='RANDBETWEEN')
